@@ -36,6 +36,9 @@ def reference_structures(cplx, parity):
     return [structure(S.identity('F', h)), structure([Seg(1, 'F', 0, 1), Seg(h - 1, 'F', N - 1, -1)])]
 
 
+SIDES_FIELD = '_Spectrum__sides'
+
+
 def run(prog, rep, tier='quick'):
     seen_idx = set()
     rep.explanation = (
@@ -46,6 +49,7 @@ def run(prog, rep, tier='quick'):
         'and a real-valued stored PSD. Not decided: that a tone yields a *maximum* at its bin (numerical), finiteness.')
     rep.rule('len', 'len(stored psd) == number of values frequencies() yields; _Spectrum__NFFT equals the NFFT given')
     rep.rule('axis', 'index map of the stored psd == identity on the bins the axis reports (weights ignored here)')
+    rep.rule('layout-flag', "with sides set to 'centerdc' before the evaluation, __call__ leaves _Spectrum__sides at the native layout of the stored estimate ('onesided' real, 'twosided' complex)")
     rep.rule('real', 'stored psd is real-valued (dtype real, or imaginary part provably dropped)')
     rep.assumptions += ['NFFT >= 8', 'real-data spectra are symmetric, so the -f copy may stand for +f']
     classes = psd_classes(prog)
@@ -129,6 +133,44 @@ def run(prog, rep, tier='quick'):
                     rep.violation('real', cls.qname, 'real-valued [%s]' % label, 'the stored PSD is complex-valued', where)
                 else:
                     rep.undecided('real', cls.qname, 'real-valued [%s]' % label, 'dtype not derivable', where)
+    # ---- layout flag: storing an estimate resets `sides` to the layout the estimate is stored in (frequencies() follows `sides`),
+    # whatever `sides` was before the evaluation
+    nlf = 0
+    for cls in classes:
+        init = cls.find_method('__init__')
+        has_method = 'method' in [a.arg for a in init.node.args.args]
+        for cplx in (False, True):
+            label = '%s, sides set to centerdc before the evaluation' % ('complex' if cplx else 'real')
+            where = loc(cls.mod, cls.node)
+            kw = ctor_args(cls, cplx, 'even', scale=False, overrides={'method': Const('unity')} if has_method else None, nparity='even')
+            ref, obj, itp, ok = C.run_class(prog, cls.mod, cls.name, [], kw, call=False)
+            nlf += 1
+            if blocked(rep, 'layout-flag', cls.qname, label, itp):
+                continue
+            if not ok or obj is None or SIDES_FIELD not in obj.f:
+                rep.undecided('layout-flag', cls.qname, label, 'constructor did not complete / no sides field', where)
+                continue
+            st = St({}, dict(itp.final_heap))
+            st.heap[ref.oid].f[SIDES_FIELD] = Const('centerdc')
+            m = cls.find_method('__call__')
+            try:
+                itp.call_function(m, [ref], {}, st, m.node)
+            except PathEnd:
+                rep.undecided('layout-flag', cls.qname, label, '__call__ has no normal path', where)
+                continue
+            if blocked(rep, 'layout-flag', cls.qname, label, itp):
+                continue
+            got = st.heap[ref.oid].f.get(SIDES_FIELD)
+            want = 'twosided' if cplx else 'onesided'
+            if isinstance(got, Const) and got.v == want:
+                rep.proved('layout-flag', cls.qname, label, 'sides = %r after the estimate is stored' % want, where)
+            elif isinstance(got, Const):
+                rep.violation('layout-flag', cls.qname, label, 'after the evaluation stores the estimate in %s layout the sides attribute is still '
+                              '%r: frequencies() reports the %r axis for values laid out %s, so a peak is reported at the wrong frequency'
+                              % (want, got.v, got.v, want), where)
+            else:
+                rep.undecided('layout-flag', cls.qname, label, 'sides attribute is not a constant after the evaluation', where)
+    rep.floor('layout-flag contexts', nlf, 24)
     rep.analysed['classes'] = [c.qname for c in classes]
     rep.analysed['contexts'] = nctx
     from ..prims import USED
